@@ -27,6 +27,8 @@ package indexmeta
 //@   ensures consumed(decoder) >= old(consumed(decoder))
 //@   ensures result == nil ==> len(m.KeyVals) == old(len(m.KeyVals)) + int(fbyte(decoder, old(consumed(decoder))))
 //@   ensures result == nil ==> forall j int :: 0 <= j && j < old(len(m.KeyVals)) ==> m.KeyVals[j] == old(m.KeyVals[j])
+//@   ensures result == nil ==> forall j int :: 0 <= j && j < len(m.KeyVals) && j >= old(len(m.KeyVals)) ==> len(m.KeyVals[j].Key) <= 255
+//@   ensures result == nil ==> forall j int :: 0 <= j && j < len(m.KeyVals) && j >= old(len(m.KeyVals)) ==> len(m.KeyVals[j].Value) <= 255
 //@   ensures result == nil ==> consumed(decoder) == kvOff(decoder, old(consumed(decoder)), len(m.KeyVals) - old(len(m.KeyVals)))
 //@   # (solver timeout, kept for reference) ensures result == nil ==> forall k int :: 0 <= k && k < len(m.KeyVals) - old(len(m.KeyVals)) ==> kvLens(decoder, kvOff(decoder, old(consumed(decoder)), k), m.KeyVals[old(len(m.KeyVals)) + k])
 //@   # (solver timeout, kept for reference) ensures result == nil ==> forall k, t int :: 0 <= k && k < len(m.KeyVals) - old(len(m.KeyVals)) && 0 <= t && t < len(m.KeyVals[old(len(m.KeyVals)) + k].Key) ==> m.KeyVals[old(len(m.KeyVals)) + k].Key[t] == fbyte(decoder, kvOff(decoder, old(consumed(decoder)), k) + 1 + t)
@@ -36,6 +38,8 @@ package indexmeta
 //@   loop 0 invariant forall j int :: 0 <= j && j < old(len(m.KeyVals)) ==> m.KeyVals[j] == old(m.KeyVals[j])
 //@   loop 0 invariant consumed(decoder) == kvOff(decoder, old(consumed(decoder)), i)
 //@   loop 0 invariant consumed(decoder) >= old(consumed(decoder)) + 1
+//@   loop 0 invariant forall j int :: 0 <= j && j < len(m.KeyVals) && j >= old(len(m.KeyVals)) ==> len(m.KeyVals[j].Key) <= 255
+//@   loop 0 invariant forall j int :: 0 <= j && j < len(m.KeyVals) && j >= old(len(m.KeyVals)) ==> len(m.KeyVals[j].Value) <= 255
 //@   # (solver timeout, kept for reference) loop 0 invariant forall k int :: 0 <= k && k < i ==> kvLens(decoder, kvOff(decoder, old(consumed(decoder)), k), m.KeyVals[old(len(m.KeyVals)) + k])
 //@   # (solver timeout, kept for reference) loop 0 invariant forall k, t int :: 0 <= k && k < i && 0 <= t && t < len(m.KeyVals[old(len(m.KeyVals)) + k].Key) ==> m.KeyVals[old(len(m.KeyVals)) + k].Key[t] == fbyte(decoder, kvOff(decoder, old(consumed(decoder)), k) + 1 + t)
 //@   # (solver timeout, kept for reference) loop 0 invariant forall k, t int :: 0 <= k && k < i && 0 <= t && t < len(m.KeyVals[old(len(m.KeyVals)) + k].Value) ==> m.KeyVals[old(len(m.KeyVals)) + k].Value[t] == fbyte(decoder, kvOff(decoder, old(consumed(decoder)), k) + 2 + len(m.KeyVals[old(len(m.KeyVals)) + k].Key) + t)
